@@ -38,6 +38,66 @@ impl BitMat {
     }
     /// Same matrix, but the ones are inserted in a seeded random order (the internal lists of
     /// SparseMatrix keep insertion order, which the alist writer must not leak).
+    /// The same matrix reached by a detour through every mutator: a junk matrix with a unique
+    /// heaviest row and column is built first, then every row is brought to its target by a
+    /// seeded choice of set_row / clear_row + insert_row / single-entry fixes, then some columns
+    /// are re-set with set_col / clear_col + insert_col. The final set of ones is exactly `self`;
+    /// what differs is the history (and with it any cached or incrementally maintained state).
+    pub fn to_sparse_via_history(&self, seed: u64) -> SparseMatrix {
+        let mut g = Stream::new(seed, "c08-detour");
+        let mut h = SparseMatrix::new(self.r, self.c);
+        let (hr, hc) = (g.below(self.r as u64) as usize, g.below(self.c as u64) as usize);
+        for i in 0..self.r {
+            for j in 0..self.c {
+                if i == hr || j == hc || g.chance(1, 3) {
+                    h.insert(i, j);
+                }
+            }
+        }
+        let mut rows: Vec<usize> = (0..self.r).collect();
+        for i in (1..rows.len()).rev() {
+            rows.swap(i, g.below(i as u64 + 1) as usize);
+        }
+        for &i in &rows {
+            let target: Vec<usize> = (0..self.c).filter(|&j| self.a[i][j] == 1).collect();
+            match g.below(4) {
+                0 => h.set_row(i, target.iter()),
+                1 => {
+                    h.clear_row(i);
+                    h.insert_row(i, target.iter().rev());
+                }
+                2 => {
+                    for j in 0..self.c {
+                        if h.contains(i, j) != (self.a[i][j] == 1) {
+                            h.toggle(i, j);
+                        }
+                    }
+                }
+                _ => {
+                    for j in 0..self.c {
+                        if self.a[i][j] == 1 {
+                            h.insert(i, j);
+                        } else {
+                            h.remove(i, j);
+                        }
+                    }
+                }
+            }
+        }
+        for j in 0..self.c {
+            let target: Vec<usize> = (0..self.r).filter(|&i| self.a[i][j] == 1).collect();
+            match g.below(4) {
+                0 => h.set_col(j, target.iter()),
+                1 => {
+                    h.clear_col(j);
+                    h.insert_col(j, target.iter());
+                }
+                _ => {}
+            }
+        }
+        h
+    }
+
     pub fn to_sparse_shuffled(&self, seed: u64) -> SparseMatrix {
         let mut pos: Vec<(usize, usize)> = Vec::new();
         for i in 0..self.r {
